@@ -1,7 +1,7 @@
 (** Refinement lemmas: the code model of map_object_id (Model/Layout.v) against the
     transcription of the extension documents (Model/LayoutSpec.v) for 0002, 0003, 0004,
     and the part of 0007 that follows the prefix removal. *)
-From Rocfl Require Import Base.Bytes Generated.Consts Model.Layout Model.LayoutSpec Model.KnownC11
+From Rocfl Require Import Base.Bytes Generated.Consts Model.Layout Model.LayoutSpec
   Proofs.BytesFacts Proofs.LayoutFacts.
 From Coq Require Import ZArith Lia ZifyBool ZifyN ZifyNat.
 Ltac Zify.zify_post_hook ::= Z.div_mod_to_equations.
